@@ -2835,3 +2835,213 @@ Proof.
     reflexivity.
   - rewrite Hrows2. apply untouched_shift.
 Qed.
+
+(* ============================================================================================== *)
+(* Part 13.  merge_children: the children of the source node are appended, in order, to the          *)
+(* destination; the source node itself is detached.                                                *)
+
+Definition t_setk (p : ref) (ks : list tree) (t : tree) : tree := set_kids t (fsetk p ks (tkids t)).
+
+Lemma upd_nth_app1 {A} (g : A -> A) (l l' : list A) i : i < length l -> upd_nth i g (l ++ l') = upd_nth i g l ++ l'.
+Proof.
+  revert i; induction l as [|x l IH]; intros i Hi; cbn in *; [lia|]. destruct i; cbn; [reflexivity|].
+  rewrite IH by lia. reflexivity.
+Qed.
+
+Lemma upd_nth_comm {A} (g h : A -> A) (l : list A) i j :
+  i <> j -> upd_nth i g (upd_nth j h l) = upd_nth j h (upd_nth i g l).
+Proof.
+  revert i j; induction l as [|x l IH]; intros i j Hij; [reflexivity|].
+  destruct i, j; cbn; try reflexivity; [congruence|]. rewrite IH by congruence. reflexivity.
+Qed.
+
+Lemma upd_nth_ext_at {A} (g h : A -> A) (l : list A) i x :
+  nth_error l i = Some x -> g x = h x -> upd_nth i g l = upd_nth i h l.
+Proof.
+  revert i; induction l as [|y l IH]; intros i H E; [reflexivity|]. destruct i; cbn in *.
+  - inversion H; subst. rewrite E. reflexivity.
+  - rewrite (IH _ H E). reflexivity.
+Qed.
+
+(* setting the children of p and appending under q commute when q is not inside p *)
+Lemma fsetk_fappend p : forall q (f : forest) K k pre P,
+  fpath pre p f = Some P -> is_prefix p q = false ->
+  fsetk p K (fappend q k f) = fappend q k (fsetk p K f).
+Proof.
+  induction p as [|i p IH]; intros q f K k pre P HP Hpq; [discriminate|].
+  cbn [fpath] in HP. destruct (nth_error f i) as [t|] eqn:Et; [|discriminate].
+  assert (Hi : i < length f) by (apply nth_error_Some; congruence).
+  destruct q as [|j q]; cbn [fappend fsetk].
+  - apply upd_nth_app1. exact Hi.
+  - rewrite is_prefix_cons in Hpq. destruct (Nat.eqb i j) eqn:E.
+    + apply Nat.eqb_eq in E. subst j. cbn [andb] in Hpq. rewrite !upd_nth_upd_nth.
+      eapply upd_nth_ext_at; [exact Et|]. rewrite !set_kids_set_kids, !tkids_set_kids.
+      f_equal. eapply IH; eassumption.
+    + apply Nat.eqb_neq in E. apply upd_nth_comm. exact E.
+Qed.
+
+Lemma del_nth_upd_nth {A} (g : A -> A) (l : list A) i : del_nth i (upd_nth i g l) = del_nth i l.
+Proof. revert i; induction l as [|x l IH]; intros [|i]; cbn; try reflexivity. rewrite IH. reflexivity. Qed.
+
+Lemma fremove_fsetk p : forall (f : forest) K, p <> [] -> fremove p (fsetk p K f) = fremove p f.
+Proof.
+  induction p as [|i p IH]; intros f K Hp; [congruence|]. destruct p as [|j p].
+  - cbn [fremove fsetk]. apply del_nth_upd_nth.
+  - rewrite !fremove_cons_ne by discriminate. cbn [fsetk]. rewrite upd_nth_upd_nth.
+    apply upd_nth_ext. intros t. rewrite set_kids_set_kids, tkids_set_kids, IH by discriminate. reflexivity.
+Qed.
+
+Lemma fsetk_fsetk p : forall (f : forest) K K', fsetk p K (fsetk p K' f) = fsetk p K f.
+Proof.
+  induction p as [|i p IH]; intros f K K'; [reflexivity|]. cbn [fsetk]. rewrite upd_nth_upd_nth.
+  apply upd_nth_ext. intros t. rewrite set_kids_set_kids, tkids_set_kids, IH. reflexivity.
+Qed.
+
+(* the names of the children of q do not change when the children of p are replaced, q not inside p *)
+Lemma fkids_names_fsetk p : forall q (f : forest) K,
+  is_prefix p q = false ->
+  option_map (map tname) (fkids q (fsetk p K f)) = option_map (map tname) (fkids q f).
+Proof.
+  induction p as [|i p IH]; intros q f K Hpq; [discriminate|].
+  destruct q as [|j q].
+  - cbn [fkids fsetk option_map]. f_equal. apply map_tname_upd_nth. intros; apply tname_set_kids.
+  - rewrite is_prefix_cons in Hpq. cbn [fkids fsetk]. rewrite nth_error_upd_nth.
+    destruct (Nat.eqb j i) eqn:E; [|reflexivity]. apply Nat.eqb_eq in E. subst j. rewrite Nat.eqb_refl in Hpq.
+    cbn [andb] in Hpq. destruct (nth_error f i) as [t|]; [|reflexivity]. cbn [option_map].
+    rewrite tkids_set_kids. apply IH. exact Hpq.
+Qed.
+
+Lemma fkids_fappend_self q : forall (f : forest) k kq,
+  fkids q f = Some kq -> fkids q (fappend q k f) = Some (kq ++ [k]).
+Proof.
+  induction q as [|j q IH]; intros f k kq H; cbn in *; [inversion H; reflexivity|].
+  rewrite nth_error_upd_nth, Nat.eqb_refl. destruct (nth_error f j) as [t|]; [|discriminate]. cbn [option_map].
+  rewrite tkids_set_kids. apply IH. exact H.
+Qed.
+
+Lemma fget_snoc p : forall (f : forest) ks i k,
+  fkids p f = Some ks -> nth_error ks i = Some k -> fget (p ++ [i]) f = Some k.
+Proof.
+  induction p as [|j p IH]; intros f ks i k Hk Hi; cbn in *.
+  - inversion Hk; subst. rewrite Hi. reflexivity.
+  - destruct (nth_error f j) as [t|]; [|discriminate].
+    destruct (p ++ [i]) eqn:E; [destruct p; discriminate|]. rewrite <- E. eapply IH; eassumption.
+Qed.
+
+Lemma adj'_later_sibling p : forall m, adj' (p ++ [0]) (p ++ [S m]) = p ++ [m].
+Proof.
+  induction p as [|a p IH]; intros m; [reflexivity|]. cbn [app]. unfold adj'.
+  rewrite adj_cons_same by (destruct p; discriminate). specialize (IH m). unfold adj' in IH.
+  destruct (adj (p ++ [0]) (p ++ [S m])); cbn [option_map]; [rewrite IH; reflexivity|].
+  rewrite IH. reflexivity.
+Qed.
+
+Lemma is_prefix_sibling_false p i j : i <> j -> is_prefix (p ++ [i]) (p ++ [j]) = false.
+Proof.
+  intros H. induction p as [|a p IH]; cbn.
+  - destruct (Nat.eqb i j) eqn:E; [apply Nat.eqb_eq in E; contradiction|reflexivity].
+  - rewrite Nat.eqb_refl. exact IH.
+Qed.
+
+(* move_in_tree with the tracker it returns *)
+Lemma move_in_tree' nr t rest p q x ks :
+  p <> [] -> tget t p = Some x -> is_prefix p q = false ->
+  fkids q (tkids t) = Some ks -> (forall k, In k ks -> tname k <> tname x) ->
+  (exists PQ, tpath t q = Some PQ) ->
+  exists n, move nr (t :: rest) (0 :: p) (Some (0 :: q))
+            = MvOk (t_move p q x t :: rest) (track (0 :: p) ((0 :: adj' p q) ++ [n])).
+Proof.
+  intros Hp Hx Hpq Hks Hfresh [PQ HPQ]. unfold move.
+  rewrite fget_cons0 by exact Hp. unfold tget in Hx. rewrite Hx.
+  rewrite is_prefix_cons. cbn [Nat.eqb andb]. rewrite Hpq.
+  rewrite fkids_cons0, Hks. rewrite dup_child_false by exact Hfresh.
+  assert (Hprot : protected nr (0 :: p) = false) by (destruct p; [congruence|reflexivity]).
+  rewrite Hprot. rewrite fremove_cons0 by exact Hp. rewrite adj'_cons0 by assumption.
+  rewrite fkids_cons0. unfold t_remove at 1. rewrite tkids_set_kids.
+  assert (HPQ' : fpath [tname t] (adj' p q) (fremove p (tkids t)) = Some PQ).
+  { unfold tpath in HPQ. rewrite (fpath_adj _ _ _ _ _ Hx Hpq). exact HPQ. }
+  destruct (fkids_of_fpath _ _ _ _ HPQ') as [ks1 Hks1]. rewrite Hks1.
+  rewrite fappend_cons0. exists (length ks1). reflexivity.
+Qed.
+
+Lemma track_cons0 x nx z : x <> [] -> is_prefix x z = false -> track (0 :: x) nx (0 :: z) = 0 :: adj' x z.
+Proof.
+  intros Hx Hz. unfold track. rewrite is_prefix_cons. cbn [Nat.eqb andb]. rewrite Hz. apply adj'_cons0; assumption.
+Qed.
+
+(* names of the children of q, as seen from the root of t *)
+Definition qnames (q : ref) (t : tree) : option (list str) := option_map (map tname) (fkids q (tkids t)).
+
+Lemma NoDup_app_l {A} (a b : list A) : NoDup (a ++ b) -> NoDup a.
+Proof. induction a as [|x a IH]; cbn; intros H; [constructor|]. inversion H; subst. constructor; [|auto].
+  intros Hin. apply H2. apply in_or_app. left; exact Hin. Qed.
+
+Lemma NoDup_app_disj {A} (a b : list A) x : NoDup (a ++ b) -> In x a -> In x b -> False.
+Proof.
+  induction a as [|y a IH]; cbn; intros H Ha Hb; [destruct Ha|]. inversion H; subst.
+  destruct Ha as [->|Ha]; [apply H2; apply in_or_app; right; exact Hb|eapply IH; eassumption].
+Qed.
+
+(* the loop of modify.py:1208-1211 without delete_children.  s: the tree with the children of p already
+   dropped and the children moved so far appended under q; K: the children not moved yet *)
+Lemma mc_loop_spec nr rest p q : p <> [] -> is_prefix p q = false ->
+  forall K (s : tree) cs trk nm,
+  length cs = length K ->
+  (forall i c, nth_error cs i = Some c -> trk c = 0 :: p ++ [i]) ->
+  (exists P, tpath s p = Some P) -> (exists PQ, tpath s q = Some PQ) ->
+  qnames q s = Some nm -> NoDup (nm ++ map tname K) ->
+  mc_loop nr false (t_setk p K s :: rest) cs trk (Some (0 :: q)) (0 :: p)
+  = (t_setk p [] (fold_left (fun s k => t_append q k s) K s) :: rest, Ret (0 :: p)).
+Proof.
+  intros Hp Hpq. induction K as [|k0 K IH]; intros s cs trk nm Hlen Htrk [P HP] [PQ HPQ] Hnm Hnd.
+  - destruct cs; [|discriminate]. reflexivity.
+  - destruct cs as [|c0 cs]; [discriminate|]. cbn [mc_loop fold_left].
+    rewrite (Htrk 0 c0 eq_refl).
+    set (m := t_setk p (k0 :: K) s).
+    assert (Hne : p ++ [0] <> []) by (destruct p; discriminate).
+    assert (Hg : tget m (p ++ [0]) = Some k0).
+    { unfold tget, m, t_setk. rewrite tkids_set_kids. eapply fget_first_child; [exact HP|exact Hp]. }
+    assert (Hpq0 : is_prefix (p ++ [0]) q = false) by (apply is_prefix_child_false; left; exact Hpq).
+    assert (HPQm : tpath m q = Some PQ).
+    { unfold tpath, m, t_setk. rewrite tname_set_kids, tkids_set_kids, fpath_fsetk by (left; exact Hpq). exact HPQ. }
+    destruct (fkids_of_fpath _ _ _ _ HPQm) as [kqm Hkqm].
+    assert (Hnames : map tname kqm = nm).
+    { pose proof (fkids_names_fsetk p q (tkids s) (k0 :: K) Hpq) as E. unfold m, t_setk in Hkqm.
+      rewrite tkids_set_kids in Hkqm. rewrite Hkqm in E. unfold qnames in Hnm.
+      destruct (fkids q (tkids s)); cbn in *; [|discriminate]. inversion Hnm; subst. inversion E. reflexivity. }
+    assert (Hfresh : forall k, In k kqm -> tname k <> tname k0).
+    { intros k Hk E. eapply (NoDup_app_disj nm (map tname (k0 :: K)) (tname k0) Hnd).
+      - rewrite <- Hnames, <- E. apply in_map. exact Hk.
+      - left. reflexivity. }
+    destruct (move_in_tree' nr m rest (p ++ [0]) q k0 kqm Hne Hg Hpq0 Hkqm Hfresh (ex_intro _ PQ HPQm)) as [n Hm].
+    cbn [option_map].
+    match goal with |- context [move ?a ?b ?c0' ?d] =>
+      replace (move a b c0' d) with
+        (MvOk (t_move (p ++ [0]) q k0 m :: rest) (track (0 :: p ++ [0]) ((0 :: adj' (p ++ [0]) q) ++ [n])))
+        by (symmetry; exact Hm) end.
+    set (t2 := track (0 :: p ++ [0]) ((0 :: adj' (p ++ [0]) q) ++ [n])).
+    assert (Ht2q : t2 (0 :: q) = 0 :: q).
+    { unfold t2. rewrite track_cons0 by assumption. rewrite adj'_child_removed by (left; exact Hpq). reflexivity. }
+    assert (Ht2p : t2 (0 :: p) = 0 :: p).
+    { unfold t2. rewrite track_cons0; [|exact Hne|apply is_prefix_child_false; right; reflexivity].
+      rewrite adj'_child_removed by (right; reflexivity). reflexivity. }
+    cbn beta. rewrite Ht2q, Ht2p.
+    assert (Hmove : t_move (p ++ [0]) q k0 m = t_setk p K (t_append q k0 s)).
+    { unfold t_move. rewrite adj'_child_removed by (left; exact Hpq).
+      unfold t_remove, m, t_setk, t_append. rewrite !set_kids_set_kids, !tkids_set_kids.
+      rewrite fremove_first_child. f_equal. symmetry. eapply fsetk_fappend; [exact HP|exact Hpq]. }
+    rewrite Hmove.
+    apply (IH (t_append q k0 s) cs (fun z => t2 (trk z)) (nm ++ [tname k0])).
+    + cbn in Hlen. lia.
+    + intros i c Hc. rewrite (Htrk (S i) c Hc). unfold t2.
+      rewrite track_cons0; [|exact Hne|apply is_prefix_sibling_false; lia].
+      rewrite adj'_later_sibling. reflexivity.
+    + exists P. unfold tpath, t_append. rewrite tname_set_kids, tkids_set_kids.
+      apply fpath_fappend_frame. exact HP.
+    + exists PQ. unfold tpath, t_append. rewrite tname_set_kids, tkids_set_kids.
+      apply fpath_fappend_frame. exact HPQ.
+    + unfold qnames, t_append in *. rewrite tkids_set_kids.
+      destruct (fkids q (tkids s)) as [kq|] eqn:Ekq; [|discriminate]. cbn in Hnm. inversion Hnm; subst nm.
+      rewrite (fkids_fappend_self q _ k0 kq Ekq). cbn. rewrite map_app. reflexivity.
+    + rewrite <- app_assoc. exact Hnd.
+Qed.
